@@ -416,7 +416,7 @@ func (f *Filter) Walk(rest, path Expr, nodes []any, cb func(path Expr, nodes []a
 	default:
 		rv := reflect.ValueOf(tv)
 		switch rv.Kind() {
-		case reflect.Slice:
+		case reflect.Slice, reflect.Array:
 			cnt := rv.Len()
 			for i := 0; i < cnt; i++ {
 				v := rv.Index(i).Interface()
